@@ -575,7 +575,7 @@ func c08Judge(r *report.Run, w *ws.Workspace, d *tsData) {
 				viol("go_ts", fmt.Sprintf("not_dispatched(%s)", str(h, "status")), reqLine+" -> "+b64text(str(h, "bodyB64")))
 				return
 			}
-			if !strings.EqualFold(handled, tc.RPC) {
+			if !sameRPCName(handled, tc.RPC) {
 				viol("go_ts", "wrong_rpc", reqLine+" handled by "+handled)
 				return
 			}
@@ -612,7 +612,7 @@ func c08Judge(r *report.Run, w *ws.Workspace, d *tsData) {
 				viol("ts_ts", "no_route(404)", str(t, "noRoute"))
 			case t["thrown"] != nil:
 				viol("ts_ts", "client_error", str(t, "thrown"))
-			case !strings.EqualFold(str(t, "handled"), tc.RPC):
+			case !sameRPCName(str(t, "handled"), tc.RPC):
 				viol("ts_ts", "wrong_rpc", "handled by "+str(t, "handled"))
 			default:
 				wantReq, _ := model.Parse(tc.ReqObj)
@@ -776,4 +776,10 @@ func c08JudgeGoHelpers(r *report.Run, w *ws.Workspace, d *tsData) {
 func b64text(s string) string {
 	b, _ := base64.StdEncoding.DecodeString(s)
 	return short(string(b), 300)
+}
+
+// sameRPCName compares a TS handler method name with the RPC name (lowerCamel of Put_bool is putBool).
+func sameRPCName(ts, rpc string) bool {
+	norm := func(s string) string { return strings.ToLower(strings.ReplaceAll(s, "_", "")) }
+	return norm(ts) == norm(rpc)
 }
